@@ -31,6 +31,7 @@ def make_verifier(seed=0, timeout_ms=20000):
     v = Verifier(build_registry(), cs, timeout_ms=timeout_ms, seed=seed)
     v.structural_classes = set(STRUCTURAL)
     v.key_projection = {'Transaction': _tx_key}
+    v.opaque_eq_classes = {'Block', 'Transaction', 'BlockHeader'}
     from . import state
     state.install(v)
     return v
@@ -133,3 +134,19 @@ def replay_file(prop, path):
     rep = replay_obligation(prop, rec.get('obligation', rec.get('name', '?')), rec.get('failing_paths', []))
     print("replay:", rep)
     return 1 if rep and rep.get('failing_input_found') else 0
+
+
+# obligations of these units are discharged by several workers (each re-executes the unit, then takes its share)
+PARALLEL = {
+    'skepticoin.networking.remote_peer.ConnectedRemotePeer.handle_block_received': 8,
+    'skepticoin.balances.uto_apply_transaction': 6,
+    'skepticoin.coinstate.CoinState.add_block_no_validation': 4,
+    'skepticoin.networking.manager.ChainManager._cleanup_transaction_pool_for_coinstate': 3,
+    'skepticoin.networking.manager.ChainManager.set_coinstate': 3,
+    'skepticoin.networking.manager.ChainManager.add_transaction_to_pool': 3,
+    'C02.apply-block-total': 3,
+}
+
+
+def parallel_parts(kind, name):
+    return PARALLEL.get(name, 1)
